@@ -82,7 +82,7 @@ func (w *World) runLevel(g *Grammar, fn *ssa.Function, tok int64, name string) [
 	}
 	ai := w.newInterp(hooks)
 	ai.MaxVisits = 3
-	st := newAState()
+	st := w.initState()
 	sc := st.externObj(g.ScannerT, nil)
 	p := st.externObj(g.ParserT, nil)
 	if scannerField >= 0 {
@@ -499,7 +499,7 @@ func (w *World) runStep(g *Grammar, fn *ssa.Function, stream []tokSpec, namespac
 	}
 	ai := w.newInterp(hooks)
 	ai.MaxVisits = 3
-	st := newAState()
+	st := w.initState()
 	scObj = st.externObj(g.ScannerT, nil)
 	scObj.Fields[streamPos] = aInt(0)
 	w.setToken(st, scObj, sf, stream[0])
